@@ -326,7 +326,19 @@ class Build:
             kw["on_setattr"] = setters.NO_OP
         # api == "define": an omitted on_setattr reaches attrs() as the default pipe ("dflt") on mutable classes
         # and as None on frozen ones; the generator only emits those combinations.
-        base = Exception if c["isExc"] else object
+        # harness-only class-shape variation: which exception root the class derives from (directly or through
+        # a plain intermediate class) and whether frozen-ness comes from the argument or from a frozen attrs base
+        root = object
+        if c["isExc"]:
+            spec = cfg.get("excRoot", "Exception")
+            root = getattr(builtins, spec.split(":")[-1])
+            if spec.startswith("mid:"):
+                root = type("Mid", (root,), {})
+        base = root
+        if c["frozen"] and cfg.get("frozenVia") == "base":
+            base = attr.s(frozen=True, slots=c["slots"], auto_exc=bool(c["isExc"]), eq=False, repr=False,
+                          init=False)(type("FrozenBase", (root,), {}))
+            kw["frozen"] = False
         h = {"ib": ibs, "pre": pre, "post": post, "base": base, "kw": kw,
              "deco": (attrs.define if api == "define" else attr.s)(**kw) if api != "make_class" else None,
              "make_class": attr.make_class}
@@ -547,6 +559,12 @@ class Build:
 
         def readback(inst):
             out = []
+            if c["isExc"]:
+                # what BaseException.__init__ received, and the text an uncaught exception would show
+                try:
+                    out.append(["args", ctx.canon(inst.args), BaseException.__str__(inst)])
+                except BaseException as e:  # noqa: BLE001
+                    out.append("exc:" + kind_of(e))
             for n in names:
                 try:
                     out.append(ctx.canon(getattr(inst, n, MISSING)))
